@@ -111,7 +111,8 @@ class C01(Prop):
             r = rng.fork(f"genome{k}")
             names, sizes, data, tags = bbgen.gen_genome_scale(r, bed=False, value_mode=r.choice(["dec", "bits", "int"]))
             o = bbgen.gen_options(r, tier)
-            o.update({"compress": 1 if k % 4 else 0, "ips": r.choice([64, 1024]), "zooms": r.choice(["none", "auto", "100000,400000"]), "src": r.choice(["iter", "file"]), "sort": "all"})
+            o.update({"compress": 1 if k % 4 else 0, "ips": r.choice([64, 1024]), "zooms": r.choice(["none", "auto", "100000,400000"]), "src": r.choice(["iter", "file"]), "sort": "all",
+                      "izs": r.choice([100000, 1000000])})      # automatic levels start coarse: a 10^8-base item at resolution 2 is 5·10^7 records
             lines = [bbgen.opt_line(o)] + bbgen.wig_lines(names, sizes, data) + [f"Q iv {n} 0 {sizes[n]}" for n in names]
             nm = names[-1]
             mid = data[nm][len(data[nm]) // 2]
